@@ -1,5 +1,6 @@
 """C08 - uniquify makes every non-leaf instance unique without changing the design."""
 from simkit.engine import Prop
+from simkit import design_shrink, textgen_verilog
 from simkit.gen_hier import hier_config, Builder, ScriptGen
 from simkit.model import scan, Snapshot
 from simkit.oracles.elab import Elab, partition_diff
@@ -58,6 +59,11 @@ class C08(Prop):
         cfg["uniq_names"] = rng.choice([0.0, 0.0, 0.5, 0.9])
         cfg["restart"] = rng.random() < 0.3
         cfg["late_pins"] = 0 if cfg["restart"] else rng.choice([0, 0, 0.4])
+        if not cfg["restart"] and rng.random() < 0.2:
+            cfg["source"] = "v"
+            cfg["vgen"] = {"depth": rng.choice([2, 3, 4]), "max_mods": rng.choice([1, 2, 3]), "max_ports": rng.choice([2, 4]),
+                           "max_wires": 3, "max_insts": rng.choice([3, 5]), "max_prims": 2,
+                           "order": rng.choice(["bottom_up", "top_down", "shuffled"]), "positional_rate": 0.2}
         if cfg["restart"]:
             cfg["acyclic_libs"] = True
             cfg["orphan_instance"] = False
@@ -65,6 +71,15 @@ class C08(Prop):
         return cfg
 
     def make_gen(self, w, rng, cfg):
+        if cfg.get("source") == "v":
+            # a design as the Verilog reader builds it: pin tables in the order instances mentioned the ports,
+            # libraries in use-before-declaration order, assign cells, constants
+            d = textgen_verilog.gen_design(rng, cfg["vgen"])
+            rs = rng.getrandbits(32)
+            ev = [{"op": "fs_put", "path": "sim://in.v", "text": design_shrink.render("v", d, rs, {"ws": "plain", "comment_rate": 0.0}),
+                   "design": d, "fmt": "v", "render": {"ws": "plain", "comment_rate": 0.0}, "render_seed": rs},
+                  {"op": "parse", "path": "sim://in.v"}]
+            return ScriptGen(ev + [{"op": "uniquify", "on": "e1.0"}, {"op": "uniquify", "on": "e1.0"}])
         b = Builder(rng, cfg)
         ev = b.build()
         tail = [{"op": "uniquify", "on": b.netlist}]
